@@ -161,6 +161,7 @@ type State struct {
 	freshSeq  map[string]int             // fresh ref -> seq at allocation
 	roots     map[string]rootInfo        // heap key -> unknown array constant underlying the current version
 	ownKeys   map[string]map[string]bool // fresh ref -> heap keys written at it (to carry private objects across havoc)
+	defCache  map[string]string          // term text -> name it is bound to on this path
 }
 
 type rootInfo struct {
@@ -193,6 +194,10 @@ func (st *State) clone() *State {
 	n.facts = make(map[string]bool, len(st.facts))
 	for k, v := range st.facts {
 		n.facts[k] = v
+	}
+	n.defCache = make(map[string]string, len(st.defCache))
+	for k, v := range st.defCache {
+		n.defCache[k] = v
 	}
 	n.arrVals = make(map[string]Value, len(st.arrVals))
 	for k, v := range st.arrVals {
@@ -325,9 +330,13 @@ func (e *Exec) define(st *State, hint string, t Term) Term {
 	if len(t.S) < 24 && !strings.ContainsAny(t.S, " ") || isLit(t) {
 		return t
 	}
+	if n, ok := st.defCache[t.S]; ok {
+		return Term{n, t.Sort}
+	}
 	name := e.freshName(hint)
 	st.script = st.script.push(fmt.Sprintf("(define-fun %s () %s %s)", name, t.Sort, t.S))
 	e.defBody[name] = t.S
+	st.defCache[t.S] = name
 	return Term{name, t.Sort}
 }
 
